@@ -148,6 +148,19 @@ CLAIMED["C24"] = dict(
         "layout and listing code of leveldb/leveldb2/leveldb3 are not decided here. " + TRUST,
    design="DESIGN.md §4 C24")
 
+CLAIMED["C26"] = dict(
+   text="Proof-level kernel of the authorisation decision: IdentityAccessManagement.authRequest succeeds only with an identity whose V2 / V4 header / V4 presigned / "
+        "V4 streaming seed signature on this request was verified (verifiers abstract) or with the configured anonymous identity for a request that has no "
+        "Authorization header, and only if that identity's action list allows the action on the request's bucket; Identity.canDo and isAdmin are proved equivalent "
+        "(both directions) to the allow-predicate from the statement (global Admin, the action, or <action>:<bucket> / Admin:<bucket> literally or by a '*' prefix "
+        "pattern) with inductive loop invariants over action lists of any length in the SMT theory of strings; lookupAnonymous; getRequestAuthType is total and "
+        "classifies as anonymous only requests without Authorization header; the wrapper installed by Auth reaches the wrapped handler only after authRequest "
+        "succeeded for the wrapper's action.",
+   note="HMAC signature computation, the chunk signatures of streaming uploads and the router are abstract; iamapi.GetActions (policy documents) is not decided here. "
+        "One defect repaired (streaming-signed requests were let through unauthenticated), one open known finding (multipart/form-data POST requests are let through "
+        "unauthenticated outside the POST policy handler). " + TRUST,
+   design="DESIGN.md §4 C26")
+
 NA = {
  "C03":"crash-point property over byte-level truncation of two persistent files; no per-function contract within reach decides it (DESIGN §4 C03)",
  "C10":"needs inductive tree predicates and cardinality reasoning over interface-typed nodes in pointer maps with randomised picking (DESIGN §4 C10)",
